@@ -891,9 +891,9 @@ func TestC19ServerCancel(t *testing.T) {
 	vl.write(t, "c19srvcancel", st.meta(n, "server cancelled 0-800 ms after an idle period / a DISCOVER / a REQUEST (inside the reply delay, inside the probes, after the reply)"))
 }
 
-// The limiter (finding F11, known): a server that NAKs every REQUEST makes the client spin through its states until the
-// limiter trips; the client then sleeps 20 s regardless of the context and panics.  The delay is reported as a violation
-// of kind limiter-sleep-ignores-cancel, which known_findings.json lists as the known finding F11.  Sockets must still be balanced.
+// The limiter (finding F11, repaired): a server that NAKs every REQUEST makes the client spin through its states until the
+// limiter trips; the client then pauses 20 s before its fatal exit.  Cancelling it during that pause must make Run return
+// at once (before the repair it slept on and panicked: violation kind limiter-sleep-ignores-cancel).  Sockets must be balanced.
 func TestC19ClientLimiter(t *testing.T) {
 	vl := &violationLog{}
 	st := newC19stats()
@@ -915,10 +915,9 @@ func TestC19ClientLimiter(t *testing.T) {
 		c.cancel()
 		<-c.done
 		d := time.Since(t0)
-		st.delay("client limiter tripped (F11): cancel -> Run ends by panic", d)
-		if d > time.Second {
-			// prompt shutdown violated on the limiter's exit path: listed in known_findings.json as F11 (status known)
-			vl.add("limiter-sleep-ignores-cancel", "client cancelled while the tripped limiter sleeps: Run returned %v after cancel (by panic=%v)", d, c.panicked != nil)
+		st.delay("client limiter tripped: cancel -> Run returns", d)
+		if d != 0 || c.panicked != nil {
+			vl.add("limiter-sleep-ignores-cancel", "client cancelled while the tripped limiter pauses: Run returned %v after cancel (by panic=%v)", d, c.panicked != nil)
 		}
 		settle(base0, 5*time.Second)
 		o, cl := c.seg.Counters()
